@@ -174,8 +174,17 @@ def dnd_spec(draw):
     }
 
 
+ROW_VARIANTS = {
+    # rows= / row_units= of add_pixel_data: the documented nine, a subset, and the nine plus one more
+    "default": None,
+    "five": (("u1", "u2", "u3", "u4", "signal"), ("1/angstrom", "1/angstrom", "1/angstrom", "meV", "count")),
+    "ten": (("u1", "u2", "u3", "u4", "irun", "idet", "ien", "signal", "error", "extra"),
+            ("1/angstrom", "1/angstrom", "1/angstrom", "meV", None, None, None, "count", "count**2", None)),
+}
+
+
 @st.composite
-def sqw_programs(draw, tier="quick", force_pix=False):
+def sqw_programs(draw, tier="quick", force_pix=False, row_variants=False):
     calls = draw(st.lists(st.sampled_from(CALLS), min_size=0, max_size=7))
     if force_pix and "pix" not in calls:
         calls.insert(draw(st.integers(0, len(calls))), "pix")
@@ -189,6 +198,10 @@ def sqw_programs(draw, tier="quick", force_pix=False):
     }
     if "pix" in calls:
         case["pix"] = draw(pixel_spec(tier))
+        if row_variants:
+            case["pix"]["rows_variant"] = draw(st.sampled_from(["default", "default", "five", "ten"]))
+            if case["pix"]["rows_variant"] == "default" and draw(st.integers(0, 7)) == 0:
+                case["pix"]["bad_unit"] = draw(st.sampled_from(["irun", "idet", "ien", "u1"]))
         nruns = draw(st.one_of(st.integers(1, 3), st.integers(1, 20)))
         mode = draw(st.sampled_from(["direct", "direct", "indirect"]))
         ndet = draw(st.integers(1, 4))
@@ -308,6 +321,15 @@ class Written:
     """Result of running a builder program: the bytes, the path (or None) and the inputs used."""
 
 
+class RefusedInvalid(Exception):
+    """An input that was made invalid on purpose (a pixel coordinate in a unit that cannot be converted)
+    was refused; `left` holds whatever bytes the target holds afterwards (None: nothing / untouched)."""
+
+    def __init__(self, error, left):
+        super().__init__(f"{type(error).__name__}: {error}")
+        self.error, self.left = error, left
+
+
 class Refused(Exception):
     """The builder refused non-ASCII text with a ValueError (allowed: the format is ASCII)."""
 
@@ -347,6 +369,23 @@ def _write(case, calls=None, tmpdir=None):
         target = BytesIO()
     try:
         return _run_builder(case, calls, w, target)
+    except Exception as e:  # noqa: BLE001 - re-raised below unless the input was made invalid on purpose
+        if not case.get("pix", {}).get("bad_unit") or "pix" not in calls:
+            raise
+        # an input the builder must refuse: what did the refusal leave in the target?
+        left = None
+        if case["target"] == "bytesio":
+            left = target.getvalue()
+        elif case["target"] == "handle":
+            target.flush()
+            with open(w.handle_path, "rb") as f:
+                left = f.read()
+        elif os.path.exists(w.path):
+            with open(w.path, "rb") as f:
+                left = f.read()
+            if left == b"older content " * 4000:
+                left = None           # the older file is still there, untouched
+        raise RefusedInvalid(e, left) from e
     finally:
         if handle is not None:
             handle.close()
@@ -360,8 +399,19 @@ def _run_builder(case, calls, w, target):
     for c in calls:
         if c == "pix":
             da, w.rows = pixel_data_array(case["pix"])
+            bad = case["pix"].get("bad_unit")
+            if bad in ("irun", "idet", "ien"):
+                da.coords[bad].unit = "dimensionless"      # the file rows carry no unit (None)
+            elif bad == "u1":
+                da.coords["u1"].unit = "meV"                # an energy where a momentum is expected
+            variant = ROW_VARIANTS[case["pix"].get("rows_variant", "default")]
+            kw = {}
+            if variant is not None:
+                kw = {"rows": variant[0], "row_units": variant[1]}
+                if "extra" in variant[0]:
+                    da.coords["extra"] = da.coords["idet"].copy()
             builder = builder.add_pixel_data(da, experiments=[make_experiment(e) for e in case["runs"]],
-                                             n_dims=case["pix"]["n_dims"])
+                                             n_dims=case["pix"]["n_dims"], **kw)
         elif c == "instrument":
             i = case["instrument"]
             builder = builder.add_default_instrument(SqwIXNullInstrument(
@@ -441,6 +491,7 @@ def labels_of(case):
         if n > min(c, 9):
             labs.append("npix>min(chunk,9)")
         labs.append(f"nruns:{min(len(case['runs']), 5)}")
+        labs.append("rows:" + p.get("rows_variant", "default"))
         labs.append("mode:" + case["runs"][0]["mode"])
         if any(case["pix"]["units"][r] not in ("1/angstrom", "meV", "count") for r in case["pix"]["units"]):
             labs.append("pixel-unit-conversion")
